@@ -127,7 +127,7 @@ def list_files(path):
 
 
 def filter_files(items, getter=lambda f: f, hidden=True, empty=True,
-                 exclude=(), include=()):
+                 exclude=(), include=(), basepath=None):
     """
     Return reduced copy of `items`
 
@@ -140,6 +140,8 @@ def filter_files(items, getter=lambda f: f, hidden=True, empty=True,
         keep files even if they match a pattern in `excluude
     hidden: Whether to include hidden files
     empty: Whether to include empty files
+    basepath: Directory all file paths are in; defaults to their longest common
+        path
     """
     def is_hidden(path):
         for name in str(path).split(os.sep):
@@ -165,10 +167,13 @@ def filter_files(items, getter=lambda f: f, hidden=True, empty=True,
 
     items = tuple(items)
     filepaths = tuple(getter(i) for i in items)
-    try:
-        basepath = pathlib.Path(os.path.commonpath(filepaths))
-    except ValueError:
-        basepath = pathlib.Path().cwd()
+    if basepath is not None:
+        basepath = pathlib.Path(basepath)
+    else:
+        try:
+            basepath = pathlib.Path(os.path.commonpath(filepaths))
+        except ValueError:
+            basepath = pathlib.Path().cwd()
 
     items_filtered = []
     for item in items:
